@@ -146,6 +146,19 @@ def rule_concat(ctx, py):
 def rule_tag(ctx, py):
     R = "C13.TAG"
     f = py.fn("rdsystem.generate_species_state")
+    # the volume multiplied into entry i is the volume of cell i: every read of the volume array is at the index of the entry
+    # that is being stored (a fixed index makes every cell inherit one cell's volume -- invisible on grids, wrong on graphs)
+    idxs = {pyfe.src(n.targets[0].slice) for n in ast.walk(f) if isinstance(n, ast.Assign) and
+            isinstance(n.targets[0], ast.Subscript) and pyfe.src(n.targets[0].value) == "state"}
+    vols = {pyfe.src(n.targets[0]) for n in ast.walk(f) if isinstance(n, ast.Assign) and "get_cell_vol_array" in pyfe.src(n.value)}
+    reads = [c for c in pyfe.calls_in(f) if isinstance(c.func, ast.Attribute) and c.func.attr == "get_at" and
+             (pyfe.src(c.func.value) in vols or "get_cell_vol_array" in pyfe.src(c.func.value))] + \
+            [n for n in ast.walk(f) if isinstance(n, ast.Subscript) and isinstance(n.ctx, ast.Load) and pyfe.src(n.value) in vols]
+    for c in reads:
+        a = pyfe.src(c.args[0]) if isinstance(c, ast.Call) and c.args else pyfe.src(c.slice) if isinstance(c, ast.Subscript) else "?"
+        ctx.check(a in idxs, R, c, f._qual, pyfe.src(c)[:50], "volume of the cell whose entry is stored",
+                  "the volume is read at `%s`, not at the index of the entry being stored (%s): every cell gets the volume of "
+                  "one cell" % (a, ", ".join(sorted(idxs)) or "?"))
     st = [n for n in ast.walk(f) if isinstance(n, ast.Assign) and pyfe.src(n.targets[0]).startswith("state[")]
     ctx.need(len(st) == 1, R, "generate_species_state: entry store not found")
     v = st[0].value
@@ -293,8 +306,8 @@ def run(ctx):
     py = ctx.py
     rule_regen(ctx, py)
     rule_index(ctx, py)
-    rule_concat(ctx, py)
     rule_tag(ctx, py)
+    rule_concat(ctx, py)
     rule_env(ctx, py)
     n0 = len(ctx.insts)
     rule_radix_py(ctx, py)
